@@ -348,7 +348,9 @@ def oracle_schedule(case):
 # ------------------------------------------------------------------------------------------------------------
 @st.composite
 def lock_case(draw):
-    return {"kind": draw(st.sampled_from(["contend", "contend", "three-way", "threshold", "sequential"])),
+    return {"kind": draw(st.sampled_from(["contend", "contend", "three-way", "threshold", "sequential",
+                                          "interval-across-processes"])),
+            "first": draw(st.sampled_from(["local", "refresh-too-early", "nothing"])),
             "age": draw(st.sampled_from([1, 30, 299, 301, 5000])), "threshold": draw(st.sampled_from([300, 10]))}
 
 
@@ -379,6 +381,31 @@ def holder(cache, ident, log, hold, write_time=False, threshold=300, start_pipe=
             os.write(fd, f"O{ident}:{type(exc).__name__}\n".encode())
             if start_pipe is not None:
                 os.write(start_pipe, b"o")
+        os._exit(0)
+    except BaseException:
+        os._exit(3)
+
+
+def scripted(cache, ident, log, steps, go_r, done_w):
+    """Forked long-lived user of the cache: for each step waits for a byte on go_r, performs the step through the
+    public functions (local population / refresh with nothing to download), logs '<ident><step>=<result>'."""
+    pid = os.fork()
+    if pid:
+        return pid
+    try:
+        from hed.schema import hed_cache
+        fd = os.open(log, os.O_WRONLY | os.O_APPEND | os.O_CREAT)
+        for step in steps:
+            os.read(go_r, 1)
+            try:
+                if step == "local":
+                    res = hed_cache.cache_local_versions(cache)
+                else:
+                    res = hed_cache.cache_xml_versions(hed_base_urls=(), hed_library_urls=(), cache_folder=cache)
+                os.write(fd, f"{ident}{step}={res}\n".encode())
+            except BaseException as exc:  # noqa
+                os.write(fd, f"{ident}{step}=raised:{type(exc).__name__}\n".encode())
+            os.write(done_w, b"d")
         os._exit(0)
     except BaseException:
         os._exit(3)
@@ -421,6 +448,37 @@ def oracle_lock(case):
                     stamp = -1
                 if abs(stamp - time.time()) > 30:
                     out.bad("refresh-time-not-recorded", str(stamp))
+        elif kind == "interval-across-processes":
+            # P uses the cache, ANOTHER process Q refreshes it, then P (still alive) and a new process R try to
+            # refresh within the interval: both must be skipped (-1), whoever did the last refresh
+            out.nontrivial = True
+            first = case.get("first", "local")
+            pg = os.pipe()       # each process has its own 'go' pipe; one shared 'done' pipe
+            qg = os.pipe()
+            rg = os.pipe()
+            dr, dw = os.pipe()
+            steps = ([] if first == "nothing" else ["local"]) + ["refresh"]
+            p_ = scripted(cache, "P", log, steps, pg[0], dw)
+            if first != "nothing":
+                os.write(pg[1], b"g")
+                os.read(dr, 1)
+            q_ = scripted(cache, "Q", log, ["refresh"], qg[0], dw)
+            os.write(qg[1], b"g")
+            os.read(dr, 1)
+            wait(q_)
+            os.write(pg[1], b"g")                                     # P's refresh attempt
+            os.read(dr, 1)
+            wait(p_)
+            r_ = scripted(cache, "R", log, ["refresh"], rg[0], dw)
+            os.write(rg[1], b"g")
+            os.read(dr, 1)
+            wait(r_)
+            for fd_ in (*pg, *qg, *rg, dr, dw):
+                os.close(fd_)
+            lines = open(log).read().split()
+            expect = (["Plocal=None"] if first != "nothing" else []) + ["Qrefresh=0", "Prefresh=-1", "Rrefresh=-1"]
+            if lines != expect:
+                out.bad("refresh-interval-not-honoured-across-processes", f"{lines} expected {expect}")
         elif kind == "sequential":
             wait(holder(cache, "A", log, 0.0))
             wait(holder(cache, "B", log, 0.0))
